@@ -51,7 +51,8 @@ CLAIMED["C11"] = ("Proof of frame (modifies) contracts for the non-reflective fu
     "opaque calls for this verifier and are assumed not to write through the listed arguments.", "5 (C11)", "")
 CLAIMED["C20"] = ("Proof that the own panic sites (index, slice bounds, nil dereference, nil-map write, unchecked type assertion, interface comparison of "
     "uncomparable dynamic types, explicit panic) of the listed decoding entry functions are unreachable for every input: ytypes.unmarshalList (any JSON "
-    "value), gnmidiff writeUpdate / protoLeafToJSON / populateUpdateNoSchema (any TypedValue whose oneof wrapper is not a typed nil), ygot.StringToPath, "
+    "value), gnmidiff writeUpdate / protoLeafToJSON / populateUpdateNoSchema (any TypedValue whose oneof wrapper is not a typed nil) and the recursive JSON "
+    "flattening flattenOCJSONAux (any decoded JSON value, non-nil result map; strings.Split returning at least one part is an assumed library law), ygot.StringToPath, "
     "StringToStructuredPath, StringToStringSlicePath, extractKV, addKey and util.SplitPath / PathStringToElements (any string), the rendering side "
     "ygot.PathToString / PathToStrings / PathToSchemaPath / elementsToString / elemToString that gnmidiff applies to every path of a request (any path, nil included, "
     "whose Elem list has no nil entry - a nil entry cannot come off the wire and does panic), and ytypes.UnmarshalSetRequest with "
